@@ -46,7 +46,11 @@ def build(src, workdir):
                    'assert(f12pow(self.v(), 1) == self.v()); } let ghost pre = v0 / pow2((it1.n + 1) as nat);', b, count=1)
         return b
     u.add("impl Fq12 {")
-    u.add(uu.real_fn('', 're:pub trait Field:', 'pow', "    ensures ret.v() == f12pow(self.v(), exp[0] as int)",
+    # R24: an inherent `pow` on Fq12 would take over the call `f.pow(&[x])`; it is then the text that must meet the contract
+    pow_src, pow_at = (u, ('fq12', r're:^impl\s+Fq12\b(?!.*\bfor\b)')) if u.src.inherent_fn('Fq12', 'pow') is not None else (uu, ('', 're:pub trait Field:'))
+    if pow_src is u:
+        u.rewrites['R24'] = u.rewrites.get('R24', 0) + 1
+    u.add(pow_src.real_fn(pow_at[0], pow_at[1], 'pow', "    ensures ret.v() == f12pow(self.v(), exp[0] as int)",
                      ret='ret', vis='pub', body_edit=pow_edit,
                      tail="proof { assert(pow2(0) == 1); reveal_with_fuel(limbs_val, 2); assert(exp@.subrange(1, 1).len() == 0); }",
                      sig_edit=lambda sg: re.sub(r'<S:\s*AsRef<\[u64\]>>', '', sg).replace('exp: S', 'exp: &[u64; 1]').replace('-> Self', '-> Fq12')))
